@@ -20,6 +20,8 @@ class Number(Token):
                     self.value = int(value)
                 except ValueError:
                     self.value = float(value)
+                    if self.value.is_integer():
+                        self.value = int(self.value)
         except ValueError:
             raise ExpectedTokenError(self.stack, f"'{value}' is not a valid number.")
 
